@@ -17,6 +17,12 @@ claim("C03", "metamorphic resource-bound testing: exhaustive control-function ta
 claim("C09", "exhaustive small-scope enumeration of token sequences + property-based random streams; state invariant evaluated after every input character",
       "Exhaustive over all 1..3-token sequences of an 80-token control-function alphabet on five screen sizes (3-token part on two sizes in quick, all five in thorough) plus 150k/4M random streams for every emulation; the cursor/geometry invariant is checked after every byte.",
       "a sequence ends at its first violation; panics/aborts end a history without verdict (C01); streams with a resize request are outside the statement", "DESIGN.md 3/C09")
+claim("C12", "exhaustive per-glyph strip documents (43 font pages x 256 glyphs x 8 neighbour attributes x 2 slot layouts) + property-based layered documents; oracle = byte equality of the reference renderer's RGBA output before/after ColorOptimizer, plus an independent glyph-shape judgement from the font bitmaps",
+      "Every glyph of every built-in font page is exercised exhaustively in a 5x2 strip document; 800k/12M generated documents (1..4 layers, alpha/offset/hidden, up to 3 font slots, palette-inserted RGB colours, bold) with both normalize_whitespaces settings.",
+      "Buffer::render_to_rgba and Buffer::get_char are the reference renderer/compositor (as the property states); layer modes Chars/Attributes, overlay, sixels and chars above 255 are outside the quantifier", "DESIGN.md 3/C12")
+claim("C13", "metamorphic property-based testing (six stacking laws L1..L6 over generated layer stacks) + exhaustive enumeration of all 96^3 three-layer single-cell stacks",
+      "500k/12M generated stacks of 1..5 layers checked against six relational laws at every position of the bounding box + 2; all 884,736 stacks of three 1x1 layers (3 modes x alpha x visible x 8 cell kinds) enumerated exhaustively; separate part for invisible cells carrying non-canonical content.",
+      "laws are relational (a consistently wrong colour in transparent-colour resolution is invisible to them); equal default font page on all layers, no overlay layer, precedence between several Chars/Attributes layers not asserted (not in the statement)", "DESIGN.md 3/C13")
 claim("C14", "property-based testing with a reference sixel rasteriser (differential oracle) + exhaustive schedule enumeration (k! completion orders x 2^k poll placements) against a FIFO model through a cfg-guarded decode gate",
       "Payload part: 400k/12M generated payloads, rectangle law and pixel-exact agreement with an independent rasteriser. Schedule part: for each generated placement of k<=4 images every completion order and every poll placement is executed against the real threads, compared with a FIFO-prefix model after each poll; a blocking poll is detected by the worker watchdog.",
       "completion order is controlled at the granularity 'decode finished' via the icy_engine_verif hook; preemption inside update_sixel_threads (single-threaded code) is not explored", "DESIGN.md 3/C14")
